@@ -30,5 +30,17 @@ BandLayouts(nb, Gaps, Thick, Owners, Ages) ==
   {[gaps |-> g, thick |-> th, own |-> ow, age |-> ag] :
       g \in SeqsOver(Gaps, nb - 1), th \in SeqsOver(Thick, nb), ow \in SeqsOver(Owners, nb), ag \in SeqsOver(Ages, nb)}
 
+(* ---- F7 (pipeline form): one flat layer with n hits out of m measurements - *)
+NMCases(maxM, Bufs) == {[n |-> n, m |-> m, h0 |-> a, h8 |-> b, dup |-> d, nce |-> c] :
+                          m \in 1..maxM, n \in 0..maxM, a \in Bufs, b \in Bufs, d \in BOOLEAN, c \in {1, 2}} \ 
+                       {x \in [n : 0..maxM, m : 1..maxM, h0 : Bufs, h8 : Bufs, dup : BOOLEAN, nce : {1, 2}] : x.n > x.m \/ (x.nce = 2 /\ x.m < 2)}
+
+(* ---- F3b: one group made of two or three levels (mixture model engaged) - *)
+(* the second level sits `gap` above the first for its recent hits and      *)
+(* `old` higher for its oldest hits (drift); an optional third level        *)
+SplitLayouts(Gaps, Olds, Thirds, Orders, LBs, Ps) ==
+  {[gap |-> g, old |-> o, third |-> t, order |-> r, lb |-> lb, p |-> p] :
+      g \in Gaps, o \in Olds, t \in Thirds, r \in Orders, lb \in LBs, p \in Ps}
+
 Export(name, S) == JsonSerialize(IOEnv.OUT_DIR \o "/" \o name \o ".json", SetToSeq(S))
 =============================================================================
